@@ -85,6 +85,7 @@ def recvStepCore (st : RecvState) (ts : List String) : RecvState × List String 
     ({ active := true, sys := freshSys s.σ.w.arena }, out ++ [" ".intercalate ts])
   | ["__end__"] => ({ st with active := false }, endCase st)
   | ["host", "filter", _] => ({ st with sys := freshSys s.σ.w.arena }, [])
+  | ["host", "weakhash"] => (st, [])   -- the real arena's hash is degraded for this case; the model has no hash
   | ["host", "base", k] =>
     let n := k.toNat?.getD 1
     let w0 := s.σ.w
